@@ -50,7 +50,7 @@ WATCHDOG = {"quick": 600, "thorough": 3000}
 def plan(tier):
     if tier == "thorough":
         return [{"variant": "plain", "workers": 16, "cases": 80000}]
-    return [{"variant": "plain", "workers": 8, "cases": 1500}]
+    return [{"variant": "plain", "workers": 8, "cases": 1000}]
 
 
 # thresholds on the normalised residuals  r = ||R|| / (u * max(1,n) * scale),  u = 2^-53  (i.e. c(n) = THR * n).
@@ -434,6 +434,11 @@ def make_env(ctx):
                        "%s raises on an empty (zero rows or columns) matrix argument: %s" % (fname, e),
                        kwargs={k: v for k, v in kw.items() if not isinstance(v, Blk)},
                        shapes={b.name: [b.rows, b.cols, b.mode] for b in list(args) + list(kw.values()) if isinstance(b, Blk)})
+            elif isinstance(e, TypeError) and "is too small" in str(e) and fname in (
+                    "orgqr", "ungqr", "orglq", "unglq", "ormqr", "unmqr", "ormlq", "unmlq"):
+                # these wrappers require offset + cols*ld elements (a full last column); the documentation is
+                # silent on the buffer length, so the stricter test is not judged
+                ctx.count("either.stricter-length-check." + fname)
             elif isinstance(e, TypeError) and "is too small" in str(e):
                 c.fail("%s:valid-buffer-rejected-as-too-short" % fname,
                        "%s rejects a buffer that holds the addressed block (offset + (cols-1)*ld + rows elements): %s" % (fname, e),
